@@ -41,6 +41,9 @@ type InstrumentSpec struct {
 	Dir     string            `json:"dir"`
 	Files   []string          `json:"files"`   // optional subset (base names); empty = every non-test .go file
 	Imports map[string]string `json:"imports"` // import redirections (default: sync, sync/atomic, time)
+	// MapAccess: report every read / write of a map reached as x.field[...] (and delete, range) to
+	// vsched.Access, the scheduler's happens-before race check
+	MapAccess bool `json:"map_access"`
 }
 
 var (
